@@ -7,6 +7,11 @@ From GoBT Require Import lib.Bytes lib.Hex lib.Str lib.Base58 model.Address corr
 Import ListNotations.
 Local Open Scope string_scope.
 
+(** long strings are written by the harness as expressions: [srep u n] is u repeated n times *)
+Fixpoint srep_nat (u : string) (n : nat) : string :=
+  match n with O => EmptyString | S k => String.append u (srep_nat u k) end.
+Definition srep (u : string) (n : N) : string := srep_nat u (N.to_nat n).
+
 Inductive case :=
 (* base58.Encode(b) = enc ; base58.Decode(enc) is covered by CB58Dec *)
 | CB58Enc (b : bytes) (enc : string)
